@@ -30,7 +30,7 @@ func (pf poolFields) content() []*types.Var {
 }
 
 func init() {
-	Explanations["C14"] = "Decides structural necessary conditions of the pool contracts in chain.Manager: (R1) in every error-returning Manager method that writes the pool's transaction lists, index map or weight, no return that can carry an error is reachable after the first such write, and any such return after a mid-state Apply passes the store that discards the mid-state; (R2) every use of an index loaded from the shared id→position map to subscript a pool slice is dominated by a bounds test against that slice, and every 'found' return by an ID equality test with the looked-up key; (R3) every v2 transaction flowing from the pool's v2 list to a result of an exported method passes DeepCopy and v1 lists are cloned; (R4) the v2 submission parameter reaches the pool only through slices.Clone + DeepCopy (or a deep-copying callee); (R5) every output→position map built by a helper from range positions of a pool list is filled from one list only, and positions read from it subscript that same list. (R6) the flag the set checker returns as 'known' starts true and is only ever lowered (constant false or a conjunction with itself), i.e. it is a conjunction over all transactions of the set. NOT decided: the rest of the truth table of 'known', validity of what is admitted (C05), behaviour of core's DeepCopy."
+	Explanations["C14"] = "Decides structural necessary conditions of the pool contracts in chain.Manager: (R1) in every error-returning Manager method that writes the pool's transaction lists, index map or weight, no return that can carry an error is reachable after the first such write, and any such return after a mid-state Apply passes the store that discards the mid-state; (R2) every use of an index loaded from the shared id→position map to subscript a pool slice is dominated by a bounds test against that slice, and every 'found' return by an ID equality test with the looked-up key; (R3) every v2 transaction flowing from the pool's v2 list to a result of an exported method passes DeepCopy and v1 lists are cloned; (R4) the v2 submission parameter reaches the pool only through slices.Clone + DeepCopy (or a deep-copying callee); (R5) every output→position map built by a helper from range positions of a pool list is filled from one list only, and positions read from it subscript that same list. (R6) the flag the set checker returns as 'known' starts true and is only ever lowered (constant false or a conjunction with itself), i.e. it is a conjunction over all transactions of the set. (R7) every write of the id→position map stores len(L) of a list L that is (or is later stored as) one of the pool's lists, and on every path from that write the transaction with that id is appended to L before the loop comes round again, the function exits or another id is registered — so the map never names a transaction that is not pooled (a stale entry makes a resubmitted set look 'known' and makes lookups return another transaction). NOT decided: the rest of the truth table of 'known', validity of what is admitted (C05), behaviour of core's DeepCopy."
 
 	register(&Rule{ID: "C14.R1", Prop: "C14", Floor: 4,
 		Doc: "all-or-nothing: no error-capable return after the first write to the pool contents; error return after ms.Apply* discards ms",
@@ -50,6 +50,9 @@ func init() {
 	register(&Rule{ID: "C14.R4", Prop: "C14", Floor: 1,
 		Doc: "copy-in: the v2 submission parameter is replaced by slices.Clone + per-element DeepCopy before any other use",
 		Run: c14r4})
+	register(&Rule{ID: "C14.R7", Prop: "C14", Floor: 4,
+		Doc: "an id is entered into the id→position map only together with its transaction: every registration `indices[id] = len(L)` is followed, before the next iteration or any exit, by the append of that transaction to L",
+		Run: c14r7})
 }
 
 // c14r1: functions of *Manager with an error result that directly write pool contents.
@@ -795,5 +798,109 @@ func c14r6(c *Ctx) {
 	}
 	if n == 0 {
 		ir.Fail("set checker (unexported Manager method returning (bool, error) that consults the pool index) not found")
+	}
+}
+
+// c14r7: registrations in the id→position map are paired with the append of the transaction.
+func c14r7(c *Ctx) {
+	pf := getPoolFields(c.P)
+	for _, f := range getChainRoles(c.P).methodsV {
+		g := f.Graph()
+		isReg := func(n *cfgx.Node) (ast.Expr, ast.Expr, bool) {
+			if n.AST == nil {
+				return nil, nil, false
+			}
+			for _, w := range f.WritesIn(n.AST, false) {
+				if ix, ok := ast.Unparen(w.LHS).(*ast.IndexExpr); ok && f.FieldOf(ix.X) == pf.indices && w.RHS != nil {
+					return ix.Index, w.RHS, true
+				}
+			}
+			return nil, nil, false
+		}
+		visited := false
+		for _, n := range g.Nodes {
+			key, val, ok := isReg(n)
+			if !ok {
+				continue
+			}
+			if !visited {
+				c.VisitGraph(f)
+				visited = true
+			}
+			ob := c.Ob(f, "registration-paired-with-append", n.Pos())
+			lst := lenOf(f, val)
+			if lst == nil {
+				ob.Bad(nil, "the position stored for an id at %s is not the length of the list the transaction is appended to", c.P.Pos(n.Pos()))
+				continue
+			}
+			// the list: a pool list, or a local that is stored as one
+			lobj := f.ObjOf(lst)
+			lfld := f.FieldOf(lst)
+			isPoolList := lfld == pf.txns || lfld == pf.v2txns
+			if !isPoolList && lobj != nil {
+				for _, w := range f.WritesIn(f.Body, false) {
+					if fl := f.FieldOf(w.LHS); (fl == pf.txns || fl == pf.v2txns) && w.RHS != nil && f.ObjOf(w.RHS) == lobj {
+						isPoolList = true
+					}
+				}
+			}
+			if !isPoolList {
+				ob.Bad(nil, "the position stored for an id at %s is the length of %s, which is not (stored as) one of the pool's lists", c.P.Pos(n.Pos()), ir.ExprString(lst))
+				continue
+			}
+			// the transaction the id belongs to: id is X.ID() directly or through single definitions
+			var txn types.Object
+			if call, ok := ast.Unparen(origin(f, key)).(*ast.CallExpr); ok {
+				if sel, ok := ast.Unparen(call.Fun).(*ast.SelectorExpr); ok && sel.Sel.Name == "ID" {
+					txn = f.ObjOf(sel.X)
+				}
+			}
+			appends := func(m *cfgx.Node) bool {
+				if m.AST == nil {
+					return false
+				}
+				for _, w := range f.WritesIn(m.AST, false) {
+					if !sameLvalue(f, w.LHS, lst) || w.RHS == nil {
+						continue
+					}
+					ac, ok := ast.Unparen(w.RHS).(*ast.CallExpr)
+					if !ok || len(ac.Args) != 2 || ac.Ellipsis.IsValid() {
+						continue
+					}
+					if id, ok := ac.Fun.(*ast.Ident); !ok || id.Name != "append" || !sameLvalue(f, ac.Args[0], lst) {
+						continue
+					}
+					if txn == nil || f.ObjOf(ac.Args[1]) == txn {
+						return true
+					}
+				}
+				return false
+			}
+			head, _, _ := enclosingRange(f, n)
+			var st []*cfgx.Visit
+			for _, e := range n.Succs {
+				st = append(st, cfgx.StartAfter(e, 0))
+			}
+			var leak *cfgx.Visit
+			what := ""
+			for m, v := range g.Reach(st, appends) {
+				switch {
+				case appends(m):
+				case m == g.Exit:
+					leak, what = v, "the function exits"
+				case head != nil && m == head:
+					leak, what = v, "the loop comes round again"
+				case m != n:
+					if _, _, again := isReg(m); again {
+						leak, what = v, "another id is registered"
+					}
+				}
+			}
+			if leak != nil {
+				ob.Bad(c.Witness(leak), "after the id is entered into the id→position map at %s %s without its transaction having been appended to %s: the map names a transaction that is not pooled (a resubmitted set is reported as known, lookups return a different transaction)", c.P.Pos(n.Pos()), what, ir.ExprString(lst))
+			} else {
+				ob.OK("every path appends the transaction before the next registration, iteration or exit")
+			}
+		}
 	}
 }
